@@ -232,7 +232,11 @@ func (c *Context) ExecutePackage(outDir string, p Package) error {
 	klog.V(5).Infof("Processing package %q, disk location %q", p.Name(), path)
 	// Filter out any types the *package* doesn't care about.
 	packageContext := c.filteredBy(p.Filter)
-	os.MkdirAll(path, 0755)
+	if !c.Verify {
+		// Verifying must not touch the disk: a missing directory is
+		// reported as missing files.
+		os.MkdirAll(path, 0755)
+	}
 	files := map[string]*File{}
 	for _, g := range p.Generators(packageContext) {
 		// Filter out types the *generator* doesn't care about.
